@@ -17,6 +17,12 @@ cls(WC, fields={"buffer": "bytes", "h11_connection": "obj M_h11"},
     # C10.passthrough / C13: no byte lost or duplicated across the upgrade
     inv=[("C10.passthrough", "cat(self.g_delivered, self.buffer) == self.g_fed", "C10,C13")])
 
+# C13 "no client byte is lost across a switch": whatever h11 had buffered behind the upgrade request
+# is the pass-through connection's first data
+fn(WC + ".__init__", params={"h11_connection": "obj M_h11"}, inline=True,
+   ensures=[("C13.ws.trailing-kept", "self.buffer == h11_connection.trailing_data[0] and same(self.h11_connection, h11_connection)", "C13,C10")],
+   ghost_post=["self.g_fed = self.buffer"],
+   props=("C13", "C10"))
 fn(WC + ".receive_data", params={"data": "bytes"}, modifies=["self.buffer", "self.g_fed"], effect="atomic",
    ghost_pre=["self.g_fed = cat_(self.g_fed, data)"],
    ensures=[("wsconn.receive", "self.buffer == cat(old(self.buffer), data)", "C10")], props=("C10", "C13"))
@@ -86,23 +92,41 @@ fn(H1 + "._handle_events", params={}, task="reader", model_opts={"h11_server_hea
 
 REQ = "obj h11:Request"
 
-fn(H1 + "._check_protocol", params={"event": REQ}, task="reader", model_opts={"h11_server_headers_ok": True},
-   requires=[("check.pre.request-just-read.conn", "isinstance(self.connection, h11.Connection)"),
-             ("check.pre.request-just-read.state", "self.connection.our_state is h11.SEND_RESPONSE"),
-             ("check.pre.request-just-read.no-stream", "self.stream is None")],
-   raises={"H2CProtocolRequiredError": None, "H2ProtocolAssumedError": None},
-   loops={0: {"locals": {"name": "bstr", "value": "bstr", "sanitised_name": "str"}}},
-   ensures=[
-       # C13.prior: anything that returns normally is not the HTTP/2 preface
-       ("C13.prior.not-missed", "not (event.method == b'PRI' and event.target == b'*' and event.http_version == b'2.0')", "C13"),
-   ],
-   props=("C04", "C13"))
-
 # last_hdr(hs, n, name): stripped latin-1 value of the last of the first n header lines whose
 # (stripped, lower-cased) name is `name`; '' if there is none
 specfn("last_hdr", ["hs:hdrs", "n:int", "name:str"], rec="n", returns="str",
        base="''",
        step="ite(hs[n - 1][0].decode('latin1').strip().lower() == name, hs[n - 1][1].decode('latin1').strip(), last_hdr(hs, n - 1, name))")
+
+# seen_name(hs, n, name): some of the first n header lines has the (stripped, lower-cased) name
+specfn("seen_name", ["hs:hdrs", "n:int", "name:str"], rec="n", returns="bool", base="False",
+       step="hs[n - 1][0].decode('latin1').strip().lower() == name or seen_name(hs, n - 1, name)")
+H2C_ASKED = ("(last_hdr(event.headers, len(event.headers), 'upgrade').lower() == 'h2c' and not seen_name(event.headers, len(event.headers), 'content-length') "
+             "and not seen_name(event.headers, len(event.headers), 'transfer-encoding'))")
+PREFACE = "(event.method == b'PRI' and event.target == b'*' and event.http_version == b'2.0')"
+
+fn(H1 + "._check_protocol", params={"event": REQ}, task="reader", model_opts={"h11_server_headers_ok": True},
+   requires=[("check.pre.request-just-read.conn", "isinstance(self.connection, h11.Connection)"),
+             ("check.pre.request-just-read.state", "self.connection.our_state is h11.SEND_RESPONSE"),
+             ("check.pre.request-just-read.no-stream", "self.stream is None")],
+   # C13: the switch to HTTP/2 happens exactly for an Upgrade: h2c request without a body (after the
+   # 101 has been sent) and for the cleartext preface; an h2c upgrade that carries a body is ignored
+   raises={"H2CProtocolRequiredError": {"ensures": [
+               ("C13.h2c.only-bodyless", H2C_ASKED, "C13"),
+               ("C13.h2c.101-first", "(n_emitted('h11') == 1 and isinstance(emitted('h11')[0], h11.InformationalResponse) and emitted('h11')[0].status_code == 101 "
+                "and emitted('h11')[0].headers[-1] == (b'upgrade', b'h2c') and emitted('h11')[0].headers[-2] == (b'connection', b'upgrade')) or self.connection.their_state is h11.ERROR", "C13"),
+               ("C13.h2c.request", "count_calls('H2CProtocolRequiredError.__init__') == 1 and same(call_args('H2CProtocolRequiredError.__init__')[2], event)", "C13")]},
+           "H2ProtocolAssumedError": {"ensures": [("C13.prior.only-preface", PREFACE + " and not " + H2C_ASKED, "C13")]}},
+   loops={0: {"locals": {"name": "bstr", "value": "bstr", "sanitised_name": "str"},
+              "invariant": [("C13.check.header-scan", "upgrade_value == last_hdr(event.headers, _i, 'upgrade') "
+                             "and has_body == (seen_name(event.headers, _i, 'content-length') or seen_name(event.headers, _i, 'transfer-encoding'))", "C13")]}},
+   ensures=[
+       # anything that returns normally is neither
+       ("C13.prior.not-missed", "not " + PREFACE, "C13"),
+       ("C13.h2c.not-missed", "not " + H2C_ASKED, "C13"),
+       ("C13.check.silent", "n_emitted('h11') == 0 and n_emitted('sent') == 0", "C13"),
+   ],
+   props=("C04", "C13"))
 
 # C13: what makes an opening a WebSocket opening, stated on the request alone: a GET whose Upgrade
 # header is "websocket" and whose Connection header lists the token "upgrade" (RFC 6455 4.2.1;
@@ -178,6 +202,15 @@ fn(H1 + ".__init__",
    props=("C18", "C06"))
 
 cls(M + "H2CProtocolRequiredError", fields={"data": "bytes", "headers": "hdrs", "settings": "str"})
+# what the switch carries over: the unconsumed bytes, and the upgrade request as an HTTP/2 header
+# list (method and target as pseudo-headers first, then every header line in order)
+fn(M + "H2CProtocolRequiredError.__init__", params={"data": "bytes", "request": REQ},
+   raises={"UnicodeDecodeError": None},
+   loops={0: {"locals": {"name": "bstr", "value": "bstr", "headers": "hdrs", "settings": "str"},
+              "invariant": [("C13.h2c.error.scan", "starts_with_seq(headers, old(headers))", "C13")]}},
+   ensures=[("C13.h2c.error.data", "self.data == data", "C13"),
+            ("C13.h2c.error.pseudo", "self.headers[0] == (b':method', request.method) and self.headers[1] == (b':path', request.target)", "C13")],
+   props=("C13", "C04"))
 cls(M + "H2ProtocolAssumedError", fields={"data": "bytes"})
 
 # ------------------------------------------------------------------------------ ProtocolWrapper
